@@ -51,6 +51,7 @@ import math
 import json
 import os
 import tempfile
+import traceback
 
 from sexp import Sym, dumps
 
@@ -509,7 +510,32 @@ def _run_nonfinite(case):
     return {'obs': 'nonfinite', 'd_fail': [], 'nontrivial': False, 'key': 'nonfinite/%d' % case['nonfinite'], 'stats': stats}
 
 
+def _raised_in_repo(e):
+    """the innermost frame of the traceback that lies in the xtuml package, or None (then the exception is the harness's own)"""
+    root = os.path.dirname(os.path.abspath(_x.__file__)) + os.sep
+    inner = [f for f in traceback.extract_tb(e.__traceback__) if os.path.abspath(f.filename).startswith(root)]
+    return inner[-1] if inner else None
+
+
 def run_impl(case):
+    """every model the generators make is inside the persistable domain: an exception that one of the library's functions
+    raises outside the places where run_impl expects one (building the model, the writers, the dumps) is a FAILURE of the
+    property with a witness, not a crash of the harness"""
+    try:
+        return _run_impl(case)
+    except Exception as e:
+        fr = _raised_in_repo(e)
+        if fr is None:
+            raise
+        outer = [f for f in traceback.extract_tb(e.__traceback__) if os.path.abspath(f.filename) == os.path.abspath(__file__)]
+        at = outer[-1].line if outer else '?'
+        return {'obs': [Sym('raised'), type(e).__name__], 'nontrivial': False, 'key': _case_key(case), 'stats': {'impl_raised': 1},
+                'd_fail': [{'sig': 'raises:%s:%s' % (type(e).__name__, fr.name),
+                            'what': '%s: %s raised in %s (%s:%d) during `%s` on a model inside the persistable domain' % (
+                                type(e).__name__, str(e)[:200], fr.name, os.path.basename(fr.filename), fr.lineno, at.strip()[:120])}]}
+
+
+def _run_impl(case):
     if case['tag'] == 'nonfinite':
         return _run_nonfinite(case)
     x = _x
@@ -768,11 +794,16 @@ def model_line(case):
         return None                 # inf / nan are no six-decimal numerals: outside the model and outside the domain
     if any(isinstance(v, float) and not math.isfinite(v) for r in case['spec']['rows'] for v in r['vals']):
         return None                 # GUARD: a non-finite REAL is no value of the model (outside the persistable domain)
-    built = gen_schema.build(_x, case['spec'])
-    m = built.m
-    parts = [_x.serialize_schema(m), _x.serialize_instances(m), _x.serialize_unique_identifiers(m)]
-    concat = ''.join(parts[i] for i in case['perm'])
-    return dumps([Sym('c01'), mm_sexp(m), concat])
+    try:
+        built = gen_schema.build(_x, case['spec'])
+        m = built.m
+        parts = [_x.serialize_schema(m), _x.serialize_instances(m), _x.serialize_unique_identifiers(m)]
+        concat = ''.join(parts[i] for i in case['perm'])
+        return dumps([Sym('c01'), mm_sexp(m), concat])
+    except Exception as e:
+        if _raised_in_repo(e) is None:
+            raise
+        return None                 # the library raised while the model was built / written: run_impl reports that (D)
 
 
 def model_obs(case, ans):
